@@ -181,7 +181,9 @@ Definition arg_names_ok : bool :=
   nodupb (map to_lower (map fst (sp_env p) ++ sp_parties p ++ map fst (st_params t))).
 
 (** input blocks are keyed by their lower-cased name *)
-Definition input_names_ok : bool := nodupb (map (fun i => to_lower (in_name i)) (st_inputs t)).
+(** the collateral block is resolved through the same query map, under the name "collateral" *)
+Definition input_names_ok : bool :=
+  nodupb ((match st_collateral t with [] => [] | _ => ["collateral"%string] end) ++ map (fun i => to_lower (in_name i)) (st_inputs t)).
 
 Definition tx_shallow_ok : bool :=
   arg_names_ok
